@@ -248,12 +248,42 @@ pub fn main(args: &[String]) {
     let mut t = Tally { n: 0, executions: 0, mismatches: 0, nontrivial: 0, printed: 0, dev: 0, current: None };
     let ctx = crate::replay_str::Ctx::new(args);
     let window = arg_u64(args, "--window", 7);
+    // Progress and watchdog: the number of the behaviour being executed is kept in a side file (so that the case is
+    // known when the real code takes the whole process down: stack overflow, abort) and watched by a thread (so that
+    // a call that never returns ends the run with {"hang": n} and exit code 3 instead of a timeout an hour later)
+    let progress = arg_value(args, "--progress").map(|p| std::fs::OpenOptions::new().create(true).write(true).open(p).unwrap_or_else(|e| tool_error(&e.to_string())));
+    let current = std::sync::Arc::new(std::sync::atomic::AtomicU64::new(0));
+    let limit = arg_u64(args, "--case-timeout", 120);
+    {
+        let current = current.clone();
+        std::thread::spawn(move || {
+            let (mut last, mut since) = (0u64, std::time::Instant::now());
+            loop {
+                std::thread::sleep(std::time::Duration::from_millis(500));
+                let now = current.load(std::sync::atomic::Ordering::Relaxed);
+                if now != last {
+                    last = now;
+                    since = std::time::Instant::now();
+                } else if now != 0 && since.elapsed().as_secs() >= limit {
+                    println!("{}", json!({ "hang": now }));
+                    std::process::exit(3);
+                }
+            }
+        });
+    }
+    let mut lineno = 0u64;
     for line in lines_of(&input) {
+        lineno += 1;
         if line.is_empty() {
             continue;
         }
         let doc: Value = serde_json::from_str(&line).unwrap_or_else(|e| tool_error(&format!("bad replay line: {} ({})", e, &line[..line.len().min(200)])));
         t.n += 1;
+        current.store(lineno, std::sync::atomic::Ordering::Relaxed);
+        if let Some(f) = progress.as_ref() {
+            use std::os::unix::fs::FileExt;
+            let _ = f.write_at(&lineno.to_le_bytes(), 0);
+        }
         t.current = Some(doc.clone());
         match doc["k"].as_str().unwrap_or("") {
             "cmp" => replay_cmp(&doc, &mut t, window),
@@ -266,6 +296,7 @@ pub fn main(args: &[String]) {
             _ => crate::replay_str::replay(&ctx, &doc, &mut t),
         }
     }
+    current.store(0, std::sync::atomic::Ordering::Relaxed);
     println!(
         "{}",
         json!({"summary": {"n": t.n, "executions": t.executions, "mismatches": t.mismatches, "nontrivial": t.nontrivial, "dev": t.dev, "other_printed": t.printed}})
